@@ -123,5 +123,132 @@ def scipy_bvls(Aeff, beff, w, b, lb, ub):
     Ae = np.array(Aeff, dtype=float); be = np.array(beff, dtype=float); w = np.array(w, dtype=float); b = np.array(b, dtype=float)
     lo = np.array(lb, dtype=float)
     hi = np.array(ub, dtype=float) if ub is not None else np.full(len(lo), np.inf)
+    hi = np.where(hi <= lo, lo + 1e-12 * (1 + np.abs(lo)), hi)  # scipy wants lb < ub strictly
     r = sls(Ae * w[:, None], w * (b - be), bounds=(lo, hi), method="bvls", tol=1e-12)
     return r.x
+
+
+# ----------------------------------------------------------------------------- per-model documented objectives
+
+def _ln(M, v):
+    if M.symbolic:
+        return S(symcp._LOG(lift(v)))
+    return float(np.log(v)) if v > 0 else float("nan")
+
+
+def _abs(M, v):
+    return abs(v)
+
+
+def _max(M, vs):
+    if M.symbolic:
+        r = vs[0]
+        for v in vs[1:]:
+            r = symnp.smax(r, v)
+        return r
+    return max(float(v) for v in vs)
+
+
+def excit(t):
+    return t / (1 + t)
+
+
+def model_objective(M, model, Aeff, beff, w, b, x):
+    """documented per-sample objective of each fitting model at intensities x (smaller is better)"""
+    if model == "gaussian":
+        return sq_error(Aeff, beff, w, b, x)
+    q = predict(Aeff, beff, x)
+    if model == "poisson":
+        # weighted Poisson negative log-likelihood of target b given predicted total capture q (constant terms dropped)
+        return _sum([w[i] * (q[i] - b[i] * _ln(M, q[i])) for i in range(len(q))])
+    if model == "excitation":
+        # largest absolute excitation difference |e(u) - e(v)|, e(t) = t/(1+t), u = w*b (target), v = w*q (prediction).
+        # Written in the equivalent form |u - v| / ((1+u)(1+v)); the equivalence for u, v >= 0 is the separate 2-variable
+        # lemma `excitation_lemma` and u, v >= 0 is the goal `excitation_nonneg`.
+        return _max(M, [_abs(M, w[i] * b[i] - w[i] * q[i]) / ((1 + w[i] * b[i]) * (1 + w[i] * q[i])) for i in range(len(q))])
+    raise ValueError(model)
+
+
+def excitation_lemma(M):
+    """for all u, v >= 0:  |u - v| / ((1+u)(1+v)) == |u/(1+u) - v/(1+v)|"""
+    if not M.symbolic:
+        return True
+    u, v = z3.Real("lem_u"), z3.Real("lem_v")
+    ab = lambda t: z3.If(t >= 0, t, -t)
+    return SB(z3.ForAll([u, v], z3.Implies(z3.And(u >= 0, v >= 0), ab(u - v) / ((1 + u) * (1 + v)) == ab(u / (1 + u) - v / (1 + v)))))
+
+
+def excitation_nonneg(M, Aeff, beff, w, b, x):
+    q = predict(Aeff, beff, x)
+    return M.conj(*[M.le(0, w[i] * b[i]) for i in range(len(q))], *[M.le(0, w[i] * q[i]) for i in range(len(q))])
+
+
+def model_domain(M, model, Aeff, beff, x):
+    """domain of the documented objective (Poisson likelihood needs a positive predicted capture)"""
+    if model == "poisson":
+        q = predict(Aeff, beff, x)
+        return M.conj(*[M.le(0, qi) for qi in q], *[(SB(lift(qi) != 0) if M.symbolic else bool(qi != 0)) for qi in q])
+    return True
+
+
+def call_model(model, A, B, lb, ub, W, K, base, batch_size):
+    from dreye.api.optimize.lsq_linear import lsq_linear, lsq_linear_excitation
+    if model in ("gaussian", "poisson"):
+        return lsq_linear(A, B, lb=lb, ub=ub, W=W, K=K, baseline=base, batch_size=batch_size, model=model, return_pred=True)
+    if model == "excitation":
+        return lsq_linear_excitation(A, B, lb=lb, ub=ub, W=W, K=K, baseline=base, batch_size=batch_size, return_pred=True)
+    raise ValueError(model)
+
+
+def assume_nonneg_system(M, A, K, base, B, kkind):
+    """quantifier of C07 / DCP domain of the poisson and excitation formulations: A >= 0, targets >= 0, baseline >= 0, K > 0 (scalar/vector)"""
+    for v in np.asarray(A).ravel():
+        M.assume(v >= 0)
+    for v in np.asarray(B).ravel():
+        M.assume(v >= 0)
+    if base is not None:
+        for v in np.asarray(base).ravel():
+            M.assume(v >= 0)
+    if K is not None:
+        for v in np.asarray(K).ravel():
+            M.assume(v > 0)
+
+
+def excitation_oracle(Aeff, beff, w, b, lb, ub, iters=60):
+    """independent numeric optimum of max_j |e(w b_j) - e(w q_j(x))| over the box (bisection on the level + LP feasibility)"""
+    from scipy.optimize import linprog
+    Ae = np.array(Aeff, dtype=float); be = np.array(beff, dtype=float); w = np.array(w, dtype=float); b = np.array(b, dtype=float)
+    u = w * b
+    eu = u / (1 + u)
+    n = Ae.shape[1]
+    bounds = [(float(lb[j]), None if ub is None else float(ub[j])) for j in range(n)]
+
+    def feasible(t):
+        lo_e = np.maximum(eu - t, 0.0); hi_e = np.minimum(eu + t, 1 - 1e-12)
+        vlo = lo_e / (1 - lo_e); vhi = hi_e / (1 - hi_e)
+        # vlo <= w*(Ae x + be) <= vhi
+        G = np.vstack([Ae * w[:, None], -Ae * w[:, None]])
+        h = np.concatenate([vhi - w * be, -(vlo - w * be)])
+        r = linprog(np.zeros(n), A_ub=G, b_ub=h, bounds=bounds, method="highs")
+        return r.status == 0
+    lo, hi = 0.0, 1.0
+    if feasible(0.0):
+        return 0.0
+    for _ in range(iters):
+        mid = 0.5 * (lo + hi)
+        if feasible(mid):
+            hi = mid
+        else:
+            lo = mid
+    return hi
+
+
+def sos_lemma(M, k):
+    """closed lemma used to pass from 'squared error' statements to statements about the residuals:
+    for all reals r_1..r_k and w_1..w_k > 0:  sum (w_i r_i)^2 >= 0, and it is 0 only if every r_i is 0"""
+    if not M.symbolic:
+        return True
+    r = [z3.Real(f"sos_r{i}") for i in range(k)]
+    w = [z3.Real(f"sos_w{i}") for i in range(k)]
+    tot = z3.Sum([(w[i] * r[i]) * (w[i] * r[i]) for i in range(k)])
+    return SB(z3.ForAll(r + w, z3.Implies(z3.And([wi > 0 for wi in w]), z3.And(tot >= 0, z3.Implies(tot == 0, z3.And([ri == 0 for ri in r]))))))
